@@ -63,6 +63,7 @@ const maxCrashes = 20
 type scenario struct {
 	X *xferScn   `json:"x,omitempty"`
 	S *scriptScn `json:"s,omitempty"`
+	B *bufScn    `json:"b,omitempty"`
 }
 
 type obsLine struct {
@@ -72,17 +73,21 @@ type obsLine struct {
 	Skip  bool       `json:"skip,omitempty"`
 	X     *xferObs   `json:"x,omitempty"`
 	S     *scriptObs `json:"s,omitempty"`
+	B     *bufObs    `json:"b,omitempty"`
 }
 
 // result of one scenario as seen by the parent
 type scnResult struct {
 	X     *xferObs
 	S     *scriptObs
+	B     *bufObs
 	Crash string // non-empty: the child died or hung while running this scenario
 	Skip  bool   // not executed: the child had met maxHungScenarios hanging scenarios before
 }
 
-func (r scnResult) hung() bool { return (r.S != nil && r.S.Hung) || (r.X != nil && r.X.Hung) }
+func (r scnResult) hung() bool {
+	return (r.S != nil && r.S.Hung) || (r.X != nil && r.X.Hung) || (r.B != nil && r.B.Hung)
+}
 
 // maxPayload reads maxPayloadSize from the sources the harness was built against.
 func maxPayload(repo string) int {
@@ -112,7 +117,7 @@ func corpus(c *hx.Ctx, pid string) []scenario {
 			continue
 		}
 		for i, sc := range l {
-			if (pid == "C10") != (sc.X != nil) || (pid == "C11") != (sc.S != nil) {
+			if (pid == "C10") != (sc.X != nil || sc.B != nil) || (pid == "C11") != (sc.S != nil) {
 				c.HarnessError("corpus %s: entry %d is not a %s scenario", f, i, pid)
 				continue
 			}
@@ -163,12 +168,14 @@ func driveExec(c *hx.Ctx) error {
 				l.X = execXfer(scns[i].X, maxp)
 			} else if scns[i].S != nil {
 				l.S = execScript(scns[i].S)
+			} else if scns[i].B != nil {
+				l.B = execBuf(scns[i].B)
 			}
 			done <- l
 		}(i)
 		select {
 		case l := <-done:
-			if (l.S != nil && l.S.Hung) || (l.X != nil && l.X.Hung) {
+			if (l.S != nil && l.S.Hung) || (l.X != nil && l.X.Hung) || (l.B != nil && l.B.Hung) {
 				hung++
 			}
 			emit(l)
@@ -338,7 +345,7 @@ func runChild(c *hx.Ctx, dir, in, outf string, n, start int, res []scnResult) (i
 				res[l.I] = scnResult{Skip: true}
 				last = l.I
 			default:
-				res[l.I] = scnResult{X: l.X, S: l.S}
+				res[l.I] = scnResult{X: l.X, S: l.S, B: l.B}
 				last = l.I
 			}
 		}
